@@ -985,6 +985,24 @@ class _SplitTupleAssign(ast.NodeTransformer):
 
     def visit_Assign(self, n):
         self.generic_visit(n)
+        # `a, b = (f(v) for v in E)`: E evaluated once, then `a = f(E[0])`, `b = f(E[1])` (the element expression must be a
+        # plain expression of the loop variable; a wrong length fails in both spellings)
+        if len(n.targets) == 1 and isinstance(n.targets[0], (ast.Tuple, ast.List)) and isinstance(n.value, (ast.GeneratorExp, ast.ListComp)) \
+                and len(n.value.generators) == 1 and not n.value.generators[0].ifs and isinstance(n.value.generators[0].target, ast.Name) \
+                and all(isinstance(t, ast.Name) for t in n.targets[0].elts) and 2 <= len(n.targets[0].elts) <= 4 \
+                and not any(isinstance(x, (ast.Lambda, ast.NamedExpr, ast.GeneratorExp, ast.ListComp)) for x in ast.walk(n.value.elt)):
+            import copy as _c
+            g = n.value.generators[0]
+            tmp = f"__gen{getattr(n, 'lineno', 0)}_{n.targets[0].elts[0].id}"
+            out = [ast.copy_location(ast.Assign(targets=[ast.Name(id=tmp, ctx=ast.Store())], value=g.iter), n)]
+            for i_, t in enumerate(n.targets[0].elts):
+                class S(ast.NodeTransformer):
+                    def visit_Name(self, x):
+                        if x.id == g.target.id and isinstance(x.ctx, ast.Load):
+                            return ast.copy_location(ast.Subscript(value=ast.Name(id=tmp, ctx=ast.Load()), slice=ast.Constant(value=i_), ctx=ast.Load()), x)
+                        return x
+                out.append(ast.copy_location(ast.Assign(targets=[t], value=S().visit(_c.deepcopy(n.value.elt))), n))
+            return out
         # `a, b = (x, y) if c else (u, v)` is `if c: a, b = x, y  else: a, b = u, v`
         if len(n.targets) == 1 and isinstance(n.targets[0], (ast.Tuple, ast.List)) and isinstance(n.value, ast.IfExp) \
                 and isinstance(n.value.body, (ast.Tuple, ast.List)) and isinstance(n.value.orelse, (ast.Tuple, ast.List)):
